@@ -156,9 +156,10 @@ fn field_item(rep: &mut Report, rng: &mut Rng, args: &Args, kind: &str, ad: &dyn
         let size = fi.size(kf.bits());
         let strings: Vec<Vec<u8>> = if size <= 2 {
             rep.exhaustive(&format!("all {}-byte strings for {} with {} (deserialization)", size, fi.name, kf.name()));
-            (0..(1u32 << (8 * size))).map(|n| n.to_le_bytes()[..size].to_vec()).collect()
+            let total = 1u64 << (8 * size);
+            (0..total).step_by(enum_step(total) as usize).map(|n| (n as u32).to_le_bytes()[..size].to_vec()).collect()
         } else {
-            field_hostile_strings(rng, &fi, kf, &st, args.pick(600, 24000) / fi.dim.min(6))
+            field_hostile_strings(rng, &fi, kf, &st, bud(args, 600, 24000) / fi.dim.min(6))
         };
         for b in &strings {
             field_bytes_case(rep, Prop::C10, kind, ad, kf, b, false, size <= 2);
@@ -198,7 +199,7 @@ fn field_item(rep: &mut Report, rng: &mut Rng, args: &Args, kind: &str, ad: &dyn
             },
         }
         // from_random_bytes_with_flags: total, result reduced (lengths up to the buffer size)
-        for _ in 0..args.pick(60, 1500) {
+        for _ in 0..bud(args, 60, 1500) {
             if fi.dim > 1 && kind != "toy-tower" && rng.next_u32() % 4 != 0 {
                 continue;
             }
@@ -329,7 +330,7 @@ fn curve_item(rep: &mut Report, rng: &mut Rng, args: &Args, ad: &dyn CAd, c: Com
     let size = enc::point_size(fi, ci.format, compressed);
     let cx = Ctx { ad, c, size, dp: format!("deser/{}/{}/{}", model(ad), ci.name, cname(c)) };
     let weight = (fi.bits / 64 + 1) * fi.dim * if ci.cofactor > UInt::one() { 2 } else { 1 };
-    let n = (args.pick(2400, 72000) / weight).max(3);
+    let n = (bud(args, 2400, 72000) / weight).max(3);
     let g = ad.generator();
     let id = identity(ad);
     let both = [Validate::Yes, Validate::No];
@@ -364,9 +365,9 @@ fn curve_item(rep: &mut Report, rng: &mut Rng, args: &Args, ad: &dyn CAd, c: Com
         cx.offer(rep, &ext, v, false, "extended", Expect::Accept, Some(&tp), false);
     }
     // 3. bit flips: every bit of the first and the last byte, random elsewhere
-    for (_, b) in valid.iter().skip(1).take(args.pick(3, 16)) {
+    for (_, b) in valid.iter().skip(1).take(bud(args, 3, 16)) {
         let mut bits: Vec<usize> = (0..8).chain(8 * (size - 1)..8 * size).collect();
-        for _ in 0..args.pick(16, 128) {
+        for _ in 0..bud(args, 16, 128) {
             bits.push(rng.next_u32() as usize % (8 * size));
         }
         for bit in bits {
@@ -409,7 +410,7 @@ fn curve_item(rep: &mut Report, rng: &mut Rng, args: &Args, ad: &dyn CAd, c: Com
     if compressed {
         let mut found = 0;
         for _ in 0..200 {
-            if found >= args.pick(6, 80) {
+            if found >= bud(args, 6, 80) {
                 break;
             }
             let co = rand_coord(rng, ad);
@@ -449,7 +450,7 @@ fn curve_item(rep: &mut Report, rng: &mut Rng, args: &Args, ad: &dyn CAd, c: Com
     if ci.cofactor > UInt::one() {
         let mut seen = 0;
         for _ in 0..64 {
-            if seen >= args.pick(6, 96).min(n) {
+            if seen >= bud(args, 6, 96).min(n) {
                 break;
             }
             let Some(t) = lifted_point(rep, rng, ad) else { break };
@@ -482,7 +483,7 @@ fn curve_item(rep: &mut Report, rng: &mut Rng, args: &Args, ad: &dyn CAd, c: Com
     }
     // 7. off-curve (x, y+1) and (x, random y), uncompressed
     if !compressed {
-        for (p, _) in valid.iter().skip(1).take(args.pick(6, 80)) {
+        for (p, _) in valid.iter().skip(1).take(bud(args, 6, 80)) {
             let Some((x, y)) = p else { continue };
             let mut y1 = y.clone();
             y1[0] = (&y1[0] + UInt::one()) % &fi.p;
@@ -500,7 +501,7 @@ fn curve_item(rep: &mut Report, rng: &mut Rng, args: &Args, ad: &dyn CAd, c: Com
         rep.class_n("rejected off-curve", 0);
     }
     // 8. conflicting flags, infinity with payload
-    for (p, b) in valid.iter().skip(1).take(args.pick(4, 40)) {
+    for (p, b) in valid.iter().skip(1).take(bud(args, 4, 40)) {
         match ci.format {
             Format::Sw => {
                 let mut m = b.clone();
@@ -647,8 +648,8 @@ fn toy_item(rep: &mut Report, rng: &mut Rng, args: &Args, ad: &dyn CAd, c: Compr
     let size = enc::point_size(fi, ci.format, compressed);
     let cx = Ctx { ad, c, size, dp: format!("deser/{}/{}/{}", model(ad), ci.name, cname(c)) };
     let total: u64 = 1u64 << (8 * size).min(40);
-    let budget: u64 = args.pick(1 << 18, 1 << 24);
-    let exhaustive = size <= 3 && total <= budget;
+    let budget: u64 = if slice() { 300 } else { args.pick(1 << 18, 1 << 24) };
+    let exhaustive = size <= 3 && total <= budget && !slice();
     if exhaustive {
         rep.exhaustive(&format!("all 2^{} byte strings of length {} for {} {} x {{validate, unchecked}}", 8 * size, size, ci.name, cname(c)));
     }
@@ -744,7 +745,7 @@ fn gt_item(rep: &mut Report, rng: &mut Rng, args: &Args, g: &dyn GAd) {
     let cof = g.cofactor_exponent();
     let size = fi.size(0);
     let one_raw: Vec<Vec<u64>> = (0..fi.dim).map(|i| fi.to_mont(&if i == 0 { UInt::one() } else { UInt::zero() })).collect();
-    let n = args.pick(12, 160);
+    let n = bud(args, 12, 160);
     for i in 0..n {
         let u: Vec<UInt> = (0..fi.dim).map(|_| rand_below(rng, &fi.p)).collect();
         let raw: Vec<Vec<u64>> = u.iter().map(|c| fi.to_mont(c)).collect();
